@@ -660,6 +660,30 @@ class Impl:
             out.append((g, repr(r)))
         return out
 
+    def shown_instruction_texts(self):
+        """Every place where the RISC-V simulation currently DISPLAYS the text of an instruction, as (where, address, text):
+        the instruction listing, the pipeline view (IF stage of the five-stage view / the single-stage view) and the
+        instruction-cache table."""
+        out = []
+        for (a, _h), text, _stage in self.sim.get_instruction_memory_entries():
+            out.append(("listing", int(a), text))
+        upd = self.sim.get_riscv_five_stage_svg_update_values() if self.five else self.sim.get_riscv_single_stage_svg_update_values()
+        d = {u[0]: u[2] for u in upd}
+        tk, ak = ("InstructionMemoryInstrText", "InstructionReadAddressText") if self.five else ("instr-mem-instr-text", "instr-mem-read-addr-text")
+        if d.get(tk) and str(d.get(ak, "")).strip() != "":
+            out.append(("pipeline-view", int(d[ak]), d[tk]))
+        ic = self.sim.get_instruction_cache_entries()
+        if ic is not None:
+            for st in ic.sets:
+                for b in st.blocks:
+                    for a, v in b.address_value_list:
+                        if isinstance(v, str) and v.strip():
+                            try:
+                                out.append(("icache-table", a if isinstance(a, int) else int(str(a), 16), v))
+                            except ValueError:
+                                pass
+        return out
+
     def toy_views(self, mask: int):
         out = []
         for i, g in enumerate(self.TOY_GETTERS):
